@@ -14,7 +14,7 @@ use std::time::Duration;
 pub const KMAX_ORACLE: u64 = 5;
 
 pub fn meta(rep: &mut Report) {
-    rep.rule = "systems: skeleton families K1..K7 (DESIGN §3.5), sweeps S1 (every slot x every pool element), S3 (full product over the first pool elements), thorough adds S2 (all slot pairs); each system x solver persona x bad-state mode x simplification (orthogonal assignment in quick, full matrix in thorough) x the two boundary bounds L-1 and L around the oracle's shortest counterexample (k=4 when none); the real bmc() runs against the reference solver (decision by exhaustive enumeration) over the real pipe protocol; the verdict must be Fail iff the explicit-state oracle finds a bad state within k steps. distinct_nontrivial = distinct (system, config, bound) sessions in which the engine issued at least one check-sat; states/transitions = reference states / transitions visited by the oracle's breadth-first searches; traces_validated_against_impl = sessions whose verdict was compared with the oracle".into();
+    rep.rule = "systems: skeleton families K1..K7 (DESIGN §3.5), sweeps S1 (every slot x every pool element), S3 (full product over the first pool elements), thorough adds S2 (all slot pairs); each system x solver persona x bad-state mode x simplification (orthogonal assignment in quick, full matrix in thorough) x the two boundary bounds L-1 and L around the oracle's shortest counterexample (k=4 when none); the real bmc() runs against the reference solver (decision by exhaustive enumeration) over the real pipe protocol; the verdict must be Fail iff the explicit-state oracle finds a bad state within k steps. distinct_nontrivial = distinct (system, config, bound) sessions in which the engine issued at least two check-sat queries (the transition relation was actually unrolled); states/transitions = reference states / transitions visited by the oracle's breadth-first searches; traces_validated_against_impl = sessions whose verdict was compared with the oracle".into();
     rep.assumptions = vec![
         "reference solver refsmt decides by exhaustive enumeration over the cone of each query (calibrated against real z3/cvc5 at development time)".into(),
         "init expressions read only earlier states; the yices persona is not paired with systems that contain constant arrays (missing feature, not a verdict)".into(),
@@ -230,7 +230,7 @@ pub fn run(opts: &Opts, rep: &Report) {
             rep.add("traces_validated_against_impl", 1);
             rep.add(&format!("verdict:{}", r["verdict"].as_str().unwrap_or("?")), 1);
             rep.add("worker_ms_total", r["ms"].as_u64().unwrap_or(0));
-            if n_checks(r) > 0 {
+            if n_checks(r) >= 2 {
                 hs.push(hash64(&format!("{}|{}|{}", c.spec.to_json(), c.cfg.tag(), c.cfg.k)));
             }
             if c.order % 4001 == 0 {
